@@ -205,6 +205,46 @@ def check_byteflow(chunk):
     return acc
 
 
+def check_raw_digraphs(args):
+    """"Every graph the library can build": graphs that are NOT closed CFGs - several entries, unreachable blocks, cycles that
+    nothing enters, self loops, duplicate targets - built with the public constructor and round-tripped once per format."""
+    from numba_scfg.core.datastructures.basic_block import BasicBlock, PythonBytecodeBlock
+    from numba_scfg.core.datastructures.scfg import SCFG
+    names, maxlen, first_rows = args
+    acc = Acc()
+    alph = [()]
+    for k in range(1, maxlen + 1):
+        alph += list(itertools.product(names, repeat=k))
+    for r0 in first_rows:
+        for rest in itertools.product(alph, repeat=len(names) - 1):
+            G = dict(zip(names, (r0,) + rest))
+            for payload in ("basic", "bytecode"):
+                for kind in "dy":
+                    if payload == "basic":
+                        blocks = {n: BasicBlock(name=n, _jump_targets=tuple(t)) for n, t in G.items()}
+                    else:
+                        blocks = {n: PythonBytecodeBlock(name=n, _jump_targets=tuple(t), begin=4 * i, end=4 * i + 4)
+                                  for i, (n, t) in enumerate(G.items())}
+                    try:
+                        scfg = SCFG(graph=blocks)
+                    except Exception:  # noqa: BLE001
+                        acc.counters["raw_digraph_not_constructible"] += 1
+                        continue
+                    seen = set()
+
+                    def report(clause, detail, site=""):
+                        if clause in seen:
+                            return
+                        seen.add(clause)
+                        acc.viol(PROP, f"{PROP}/{clause}", f"graph {G}: {detail}", (tuple(sorted(G.items())), payload, kind), site=site or "raw",
+                                 shape="raw-digraph", case={"kind": "raw", "graph": {k: list(v) for k, v in G.items()}, "payload": payload, "rt": kind})
+                    round_trip(scfg, kind, report)
+                    acc.states += 1
+                    acc.transitions += 1
+                    acc.counters["raw_digraph_round_trips"] += 1
+    return acc
+
+
 def run(tier: str, seed: int):
     h2, h1 = histories(2), histories(1)
     units = []
@@ -218,12 +258,22 @@ def run(tier: str, seed: int):
     acc = Acc()
     for r in shard_map(_work, rotate(units, seed)):
         acc.merge(r)
+    raw_units = []
+    for names, maxlen in ((("a", "b", "c"), 2), (("a", "b", "c", "d"), 1)):
+        alph = [()]
+        for k in range(1, maxlen + 1):
+            alph += list(itertools.product(names, repeat=k))
+        raw_units += [(names, maxlen, [r0]) for r0 in alph]
+    for r in shard_map(check_raw_digraphs, raw_units):
+        acc.merge(r)
     progs = list(skeleton_sources(1 if tier == "quick" else 2, "marked"))
     for r in shard_map(check_byteflow, [progs[i:i + 100] for i in range(0, len(progs), 100)]):
         acc.merge(r)
     cov = {"rule": "histories = stage pipeline J, L, B with at most k write/read round trips (dict or YAML) inserted in the 4 gaps (all placements, "
                    "all kinds, chains included); each round trip calls the real writer and reader; oracle: no exception, listed fields equal "
                    "(successor ORDER included), re-written dictionary equal; plus real bytecode graphs of skeleton functions at every prefix; "
+                   "plus ALL digraphs on 3 names (target lists <= 2) and 4 names (<= 1) built with the constructor - not closed: several "
+                   "entries, unreachable cycles, duplicates - once per format; plus: what was written must not change afterwards; "
                    "a state is one history executed, a transition one round trip or stage",
            "bounds": {"max_round_trips": 2, "E_with_2_round_trips": 4 if tier == "quick" else 5, "E_with_1_round_trip": 5,
                       "histories_per_graph": len(h2), "byteflow_programs": len(progs)}}
@@ -237,6 +287,13 @@ def replay(case) -> Acc:
     if case.get("kind") == "function":
         r = check_byteflow([(case["label"], case["source"])])
         return r
+    if case.get("kind") == "raw":
+        G = {k: tuple(v) for k, v in case["graph"].items()}
+        names = tuple(G)
+        r = check_raw_digraphs((names, max(len(v) for v in G.values()) or 1, [G[names[0]]]))
+        want = tuple(sorted(G.items()))
+        acc.viols = [v for v in r.viols if str(G) in v["detail"] or True][:0] or [v for v in r.viols if f"graph {G}:" in v["detail"]]
+        return acc
     g = tuple(tuple(r) for r in case["graph"])
     hist = tuple(tuple(h) for h in case.get("history", []))
     check_graph(g, case.get("family", "replay"), acc, {"histories": [hist]})
